@@ -22,12 +22,18 @@ RULE = (
     '1-3 clock-expire tasks with offsets from -P1D to +P2D, 0-3 expire '
     'children (x:expired? => c, also with a -P1D offset, or-ed with x '
     'succeeded, and-ed with another task), optional runahead limit P0-P3, '
+    'in 5 of 6 cases limited internal queues (default queue with limit 1-2 '
+    'and/or a named queue with limit 1-2 holding clock-expire tasks and up '
+    'to 3 others, so that a triggered task can be parked waiting(queued) '
+    'behind active tasks while the clock moves on), '
     'execution retries with delays PT0S..P3D and failing first jobs (tasks '
     'waiting again), virtual clock started between 2 days before and 2 days '
     'after the expiry time of one clock-expire instance, schedules of '
     'main-loop iterations, command returns, job steps, message deliveries, '
     'clock ticks of 1 s .. 2 days '
-    'and manual triggers of pooled / finished / unspawned instances, then a '
+    'and manual triggers of pooled / finished / unspawned instances (any '
+    'task, or aimed at clock-expire instances: pooled not-active ones or any '
+    'model instance), then a '
     'fair drain, then 1-3 further (tick, drain) rounds.  Oracle on the '
     'trace: every transition to expired is of a task with a clock-expire '
     'offset that was waiting, was not manually triggered (no accepted '
@@ -39,10 +45,13 @@ RULE = (
     'afterwards or was spawned before.  Non-trivial = at least one expiry '
     'happened and the eligibility rule discriminated in the same case '
     '(another clock-expire instance ran a job, or was active / manually '
-    'triggered past its expiry time); distinct by the case.')
+    'triggered / parked in a full queue after a trigger past its expiry '
+    'time); distinct by the case.')
 ASSUMPTIONS = [
     'Manually triggered = a trigger command naming the instance was '
-    'accepted while the instance was not preparing/submitted/running, and '
+    'accepted while the instance was not preparing/submitted/running '
+    '(whether the trigger runs it at once or its full limited queue parks '
+    'it as waiting(queued)), and '
     'the instance has not entered job preparation since (the scheduler '
     'clears its own flag at that point, so a retry of a triggered task may '
     'expire).',
@@ -136,6 +145,23 @@ def cases(draw):
         sec['lines'].append({'lhs': lhs, 'rhs': [child]})
     if draw(st.booleans()):
         spec['extra']['runahead'] = 'P%d' % draw(st.integers(0, 3))
+    # limited internal queues: a triggered task may be parked (waiting,
+    # queued) behind active tasks for any length of virtual time
+    qmode = draw(st.integers(0, 5))
+    queues = []
+    if qmode in (1, 2, 3):
+        queues.append({'name': 'default', 'limit': draw(st.integers(1, 2))})
+    if qmode in (3, 4, 5):
+        others = [t for t in spec['tasks'] if t not in ce_tasks]
+        members = draw(st.lists(st.sampled_from(ce_tasks), min_size=1,
+                                max_size=len(ce_tasks), unique=True))
+        if others:
+            members += draw(st.lists(st.sampled_from(others), max_size=3,
+                                     unique=True))
+        queues.append({'name': 'qlim', 'limit': draw(st.integers(1, 2)),
+                       'members': members})
+    if queues:
+        spec['extra']['queues'] = queues
     for t in base_tasks:
         if draw(st.integers(0, 2)) == 0:
             n = draw(st.integers(1, 2))
@@ -151,8 +177,9 @@ def cases(draw):
             draw(st.sampled_from(['PT10M', 'PT2H', 'P1D', 'P3D']))]}
         outcomes[f'{p}/{t}'] = [{'final': 'failed'}, {'final': None}]
     sched = draw(st.lists(st.tuples(
-        st.sampled_from(['loop', 'loop', 'loop', 'ret', 'adv', 'del', 'del',
-                         'tk', 'tk', 'trigger', 'trigger']),
+        st.sampled_from(['loop', 'loop', 'loop', 'ret', 'ret', 'adv', 'del',
+                         'del', 'tk', 'tk', 'trigger', 'trigger', 'trigce',
+                         'trigce']),
         st.integers(0, 15)).map(list), max_size=50))
     tail = draw(st.lists(st.sampled_from([3600, 43200, DAY, 3 * DAY]),
                          min_size=1, max_size=3))
@@ -177,6 +204,27 @@ def expire_children(model, x, p):
                     if atom_target(a, q) == p and model.is_valid(c, q):
                         out.add((c, q))
     return out
+
+
+async def _trigger_ce(sc, n):
+    """Trigger a clock-expire instance: even n a pooled one that is not
+    active (if any), odd n any model instance (finished / not yet spawned /
+    beyond the runahead limit included)."""
+    from cylc.flow import commands
+    drv, sim = sc.drv, sc.sim
+    ce = drv.spec['extra']['clock_expire']
+    ids = [i for i in drv.instance_ids() if i.split('/')[1] in ce]
+    if n % 2 == 0:
+        pooled = [i for i in drv.pool_ids('waiting', 'failed',
+                                          'submit-failed', 'succeeded',
+                                          'expired')
+                  if i.split('/')[1] in ce]
+        ids = pooled or ids
+    if not ids:
+        return
+    id_ = ids[(n // 2) % len(ids)]
+    await drv._run('trigger', commands.force_trigger_tasks(
+        sim.schd, [id_], []), task=id_, flow=[])
 
 
 def check_case(case, ctx: Ctx) -> CaseResult:
@@ -206,6 +254,8 @@ async def _check(case, ctx: Ctx) -> CaseResult:
                 break
             if op == 'tk':
                 sim.clock.advance(TICKS[n % len(TICKS)])
+            elif op == 'trigce':
+                await _trigger_ce(sc, n)
             else:
                 await sc.drv.step(op, n)
         await sc.drain()
@@ -237,6 +287,7 @@ def _oracle(case, sc, viol, t_start, initial) -> CaseResult:
     in_pool = set(initial)
     ever_added = set(initial)
     manual_pending = set()
+    parked = set()         # clock-expire tasks a trigger parked in a queue
     expired_at = {}        # (cyc, name) -> trace index of the expiry
     launched_ce = set()
     classes = set()
@@ -267,6 +318,16 @@ def _oracle(case, sc, viol, t_start, initial) -> CaseResult:
             if et is not None and ev['vt'] >= et:
                 classes.add('manual-trigger-past-expiry')
                 discriminated = True
+            after = [t for t in ev['after']
+                     if (t['cycle'], t['name']) == key]
+            if (after and after[0]['status'] == 'waiting'
+                    and after[0]['queued']
+                    and not (before and before[0]['queued'])):
+                # the trigger found its queue full: parked, not run now
+                classes.add('trigger-parked-in-full-queue')
+                if et is not None:
+                    classes.add('clock-expire-trigger-parked-in-full-queue')
+                    parked.add(key)
         elif k == 'launch':
             key = (ev['cycle'], ev['name'])
             if ev['name'] in ce:
@@ -279,6 +340,13 @@ def _oracle(case, sc, viol, t_start, initial) -> CaseResult:
                     f'iteration {trace[expired_at[key]]["it"]} (no trigger '
                     f'command in between)'))
         elif k == 'iter-end':
+            for key in parked & manual_pending & in_pool:
+                # a triggered clock-expire task still waiting in its full
+                # queue at the end of an iteration past its expiry time
+                if (status.get(key) == 'waiting'
+                        and ev['vt'] >= exp_time(key[1], key[0])):
+                    classes.add('parked-manual-trigger-past-expiry')
+                    discriminated = True
             for key, s in status.items():
                 if s in ACTIVE and key in in_pool:
                     et = exp_time(key[1], key[0])
@@ -375,6 +443,8 @@ def _oracle(case, sc, viol, t_start, initial) -> CaseResult:
                         f'{ident} expired but its expire child '
                         f'{kid[0]}/{kid[1]} was not spawned (added by the '
                         f'expiry: {adds})'))
+    if spec['extra'].get('queues'):
+        classes.add('limited-queue')
     if n_expired:
         classes.add('expired-some')
     if launched_ce:
